@@ -185,10 +185,15 @@ func (l *Listener) HotRestart(epoch uint64) error {
 	l.state = hotRestartState
 	l.epoch = epoch
 
+	// a failed send closes the session, and its shutdown callback takes sessionMu: iterate over a snapshot
 	l.sessions.sessionMu.Lock()
-	defer l.sessions.sessionMu.Unlock()
-
+	sessions := make([]*Session, 0, len(l.sessions.data))
 	for session := range l.sessions.data {
+		sessions = append(sessions, session)
+	}
+	l.sessions.sessionMu.Unlock()
+
+	for _, session := range sessions {
 		if !session.handshakeDone {
 			return ErrInHandshakeStage
 		}
